@@ -295,6 +295,7 @@ class Child:
             os.close(r2)
             fin, fout = os.fdopen(r1, "rb"), os.fdopen(w2, "wb")
             try:
+                gc.freeze()       # what the parent allocated is not this history's business: collections stay cheap
                 world = World()
                 while True:
                     try:
@@ -564,9 +565,12 @@ def _pair_sweep(job):
     out = []
     try:
         for A, B in pairs:
-            for ops in ([["create", A], ["adv", 0, 1000000], ["create", B], ["adv", 0, 1000000]],
-                        [["create", A], ["create", B], ["adv", 1, 1000000], ["adv", 0, 1000000]],
-                        [["create", A], ["adv", 0, 1000000], ["create", B], ["adv", 0, 1000000], ["create", A], ["adv", 0, 1000000]]):
+            orders = [[["create", A], ["adv", 0, 1000000], ["create", B], ["adv", 0, 1000000]],
+                      [["create", A], ["create", B], ["adv", 1, 1000000], ["adv", 0, 1000000]]]
+            if A["cls"] in C.REVOLVE_FAMILY or A["n"] <= 4:
+                # A, B, A again: tables rescaled / rebuilt in place (cost-dependent tables exist in the Revolve family only)
+                orders.append([["create", A], ["adv", 0, 1000000], ["create", B], ["adv", 0, 1000000], ["create", A], ["adv", 0, 1000000]])
+            for ops in orders:
                 r = replay_ops(ops, g.get)
                 if r is not None:
                     out.append({"ops": ops, "pred": r[0], "detail": r[1], "variant": r[2]})
@@ -588,7 +592,7 @@ def _abandon_sweep(job):
         for cfg in cfgs:
             L = len(g.get(cfg))
             sib = [b for _, b in siblings(cfg)][:1]
-            for k in sorted({1, 2, 3, max(1, L // 2), max(1, L - 2)}):
+            for k in sorted({1, 2, max(1, L // 2), max(1, L - 2)}):
                 if k >= L:
                     continue
                 for B in [cfg] + sib:
@@ -758,6 +762,8 @@ def style_box(tier):
     out = []
     for c in list(C.call_style_box(tier)) + pair_base("quick"):
         c = {k: v for k, v in c.items() if k != "style"}
+        if tier == "quick" and c["n"] not in (1, 2, 3, 5, 7, 30):
+            continue
         if C.key(c) not in seen:
             seen.add(C.key(c))
             out.append(c)
@@ -838,6 +844,13 @@ def run(prop, args):
             rep.add_violation(b, w, d, kind=k)
         return rep.finish()
     tier = args.tier
+    import time as _t
+    _t0 = [_t.time()]
+    phases = {}
+
+    def lap(name):
+        phases[name] = round(_t.time() - _t0[0], 1)
+        _t0[0] = _t.time()
     examples, steps = (80, 40) if tier == "quick" else (800, 80)
     res = R.pmap(_shard, [(tier, args.seed, k, examples, steps) for k in range(16)], chunksize=1)
     compared = 0
@@ -858,6 +871,7 @@ def run(prop, args):
             rep.add_violation((f["variant"], f["pred"]), {"ops": f["ops"]}, f["detail"], kind="history")
         if part.get("flaky"):
             flaky_shards.append(part["flaky"])
+    lap("stateful")
     # structured sibling-pair sweep (caches keyed on too little, in-place mutation of shared tables)
     pairs = pair_box(tier)
     pres = R.pmap(_pair_sweep, R.chunks(pairs, 64), chunksize=1)
@@ -867,6 +881,7 @@ def run(prop, args):
         for f in part["fails"]:
             rep.add_violation((f["variant"], f["pred"]), {"ops": f["ops"]}, f["detail"], kind="history")
     rep.evaluations += npairs
+    lap("pairs")
     # observer-interleaving sweep
     obox = obs_box(tier)
     nobs = 0
@@ -875,6 +890,7 @@ def run(prop, args):
         for f in part["fails"]:
             rep.add_violation((f["variant"], f["pred"]), {"ops": f["ops"]}, f["detail"], kind="history")
     rep.evaluations += nobs
+    lap("observers")
     abox = [c for c in pair_base(tier) if c["n"] <= (4 if tier == "quick" else 9) or c["n"] >= 30]
     nab = 0
     for part in R.pmap(_abandon_sweep, R.chunks(abox, max(1, len(abox) // 48 + 1)), chunksize=1):
@@ -882,7 +898,8 @@ def run(prop, args):
         for f in part["fails"]:
             rep.add_violation((f["variant"], f["pred"]), {"ops": f["ops"]}, f["detail"], kind="history")
     rep.evaluations += nab
-    ab_ex = {"box": "abandoned schedules: every small config advanced k actions (k in 1,2,3, half, all but two), dropped and collected, then the same config / a sibling built and run in the same process",
+    lap("abandon")
+    ab_ex = {"box": "abandoned schedules: every small config advanced k actions (k in 1, 2, half, all but two), dropped and collected, then the same config / a sibling built and run in the same process",
              "cases": nab, "exhaustive": True}
     ijobs = idreuse_box(tier)
     reached = 0
@@ -890,10 +907,10 @@ def run(prop, args):
         rep.evaluations += 1
         if r["hit"] is not None:
             reached += 1
-            rep.nontrivial.add("idreuse:" + C.key(job[0]) + ":%d" % job[2])
         if r.get("fail"):
             f = r["fail"]
             rep.add_violation((f["variant"], "state-attached-to-object-identity"), {"cfg": f["cfg"], "idreuse": [f["m"], f["k"]]}, f["detail"], kind="env")
+    lap("idreuse")
     rep.extra["id_reuse_probes"] = {"probes": len(ijobs), "address_reused_within_cap": reached, "cap": IDREUSE_CAP}
     obs_ex = ({"box": "observer interleaving: every small offline config (n<=%d) and every online class (n in {1,2,3,5}, finalised 0-3 Forward requests late); all observers read after every action, and after exactly one action (positions 0..9)" % (5 if tier == "quick" else 6),
                            "cases": nobs, "exhaustive": True})
@@ -904,6 +921,7 @@ def run(prop, args):
         rep.evaluations += part["n"]
         for f in part["fails"]:
             rep.add_violation((f["variant"], "hash-seed-dependent"), {"cfg": f["cfg"], "hashseed": f["hashseed"]}, f["detail"], kind="env")
+    lap("hashseed")
     sbase = style_box(tier)
     nstyle = 0
     for part in R.pmap(_style_sweep, R.chunks(sbase, max(1, len(sbase) // 32 + 1)), chunksize=1):
@@ -911,12 +929,14 @@ def run(prop, args):
         for f in part["fails"]:
             rep.add_violation((f["variant"], "call-style-dependent"), {"cfg": f["cfg"], "style": f["style"]}, f["detail"], kind="env")
     rep.evaluations += nstyle
+    lap("styles")
+    rep.extra["phase_seconds"] = phases
     rep.extra["call_style_sweep"] = {"configs": len(sbase), "constructions_compared": nstyle, "styles": C.STYLES}
     rep.extra["hash_seed_sweep"] = {"configs": len(ebase), "PYTHONHASHSEED": ["0 (the run's own)"] + list(HASH_SEEDS)}
     for A, B in pairs:
         if (A["cls"] in SHARE_A or A["cls"] in SHARE_B):
             rep.nontrivial.add("pair:" + C.key(A) + "|" + C.key(B))
-    rep.exhaustive = [{"box": "every ordered pair (A, B) of configs differing in exactly one parameter, n<=%d, units<=3, three orders of use (A then B; B before A; A, B, then A again), each in a pristine child" % (6 if tier == "quick" else 9),
+    rep.exhaustive = [{"box": "every ordered pair (A, B) of configs differing in exactly one parameter, n<=%d, units<=3, orders of use A then B; B before A; and (Revolve family, and every class for n<=4) A, B, then A again, each in a pristine child" % (6 if tier == "quick" else 9),
                        "cases": npairs, "exhaustive": True}, obs_ex, ab_ex]
     R.run_regress(rep, check_witness)
 
